@@ -16,12 +16,13 @@ def queries(tier):
     # instrumented item type: constructed / destroyed exactly once, also through merges of sketches past exact mode
     for (na, nb, script, ns) in [(3, 2, 0, 1), (9, 9, 0, 1), (9, 9, 1, 1), (9, 3, 2, 1)] + ([(13, 9, 0, 1), (9, 12, 0, 2)] if tier == 'thorough' else []):
         qs.append(Q(f'klli_a{na}_b{nb}_script{script}', 'kll_items', 'c19_kll_items.c', defs={'NA': na, 'NB': nb, 'SCRIPT': script, 'NSYM': ns}, unwind=max(na, nb) + 6,
-                    unwindset={'^(harness|verif_mem.*|verif_new.*)$': 40}, timeout=(400 if tier == 'quick' else 1800), native_vectors=100,
+                    unwindset={'^(harness|verif_mem.*|verif_new.*)$': 40, '^verif_item_(ctor|dtor)$': 50}, timeout=(400 if tier == 'quick' else 1800), native_vectors=100,
                     c_defs={'VERIF_NEW_CAPN': 64, 'VERIF_VEC_CAP': 32}, mem_gb=(16 if tier == 'quick' else 28)))
     # var_opt over the instrumented item type, incl. assignment onto a sketch that has left warm-up
     # (past warm-up, NA > k, symex of the heap / reservoir transition with random draws did not finish: only warm-up shapes)
-    for (na, nb, script) in [(1, 1, 0), (2, 1, 0), (2, 1, 1), (2, 0, 2), (2, 0, 3)]:
-        qs.append(Q(f'voi_a{na}_b{nb}_script{script}', 'varopt_items', 'c19_vo_items.c', defs={'NA': na, 'NB': nb, 'SCRIPT': script}, tu_defs={'__OPT': '-O1 -fno-pic'}, unwind=12,
-                    unwindset={'^(harness|verif_mem.*|verif_new.*)$': 40}, timeout=(400 if tier == 'quick' else 1800), native_vectors=100,
+    # inj = 1 / 2: A (and B) put into the resting estimation-mode state by injection (gap slot constructed, filled_data_ set) before the script runs
+    for (na, nb, script, inj) in [(1, 1, 0, 0), (2, 1, 0, 0), (2, 1, 1, 0), (2, 0, 2, 0), (2, 0, 3, 0), (2, 1, 0, 1), (2, 2, 0, 2), (2, 1, 1, 1), (2, 2, 1, 2), (2, 0, 2, 1), (2, 0, 3, 1)]:
+        qs.append(Q(f'voi_a{na}_b{nb}_script{script}' + (f'_est{inj}' if inj else ''), 'varopt_items', 'c19_vo_items.c', defs=dict({'NA': na, 'NB': nb, 'SCRIPT': script}, **({'INJECT_EST': inj} if inj else {})), tu_defs={'__OPT': '-O1 -fno-pic'}, unwind=12,
+                    unwindset={'^(harness|verif_mem.*|verif_new.*)$': 40, '^verif_item_(ctor|dtor)$': 26}, timeout=(400 if tier == 'quick' else 1800), native_vectors=100,
                     c_defs={'VERIF_NEW_CAPN': 40}, mem_gb=(16 if tier == 'quick' else 28)))
     return qs
